@@ -180,3 +180,28 @@ Section Split.
     = split_by rank l size.
   Proof. intros. apply tie_nondominated_split. Qed.
 End Split.
+
+(* ---- C04 (truncation clause) stated about the GENERATED nondominated_truncate (its callees: Python's stable
+   sorted [sorted_by] and the comparator, tied above as tie_nd_sort_cmp): the definition produced from the source
+   text keeps min(size, n) distinct members of the population, and whatever it keeps has rank <= whatever it drops,
+   with crowding >= at equal rank. ---- *)
+From PV Require Import Proofs.TruncateProofs Props.C04.
+
+Notation gen_nd_truncate l size :=
+  (Core.nondominated_truncate asol (asol -> asol -> bool) (asol -> asol -> Z) truncate_callee cmp_key_lt nd_sort_cmp l (Z.of_nat size)).
+
+Theorem tie_c04_generated_truncate_length : forall l k, length (gen_nd_truncate l k) = Nat.min k (length l).
+Proof. intros l k. rewrite tie_nondominated_truncate. apply c04_nd_truncate_length. Qed.
+
+Theorem tie_c04_generated_truncate_sub : forall l k, NoDup (map asid l) ->
+  NoDup (map asid (gen_nd_truncate l k)) /\ exists dropped, Permutation.Permutation (gen_nd_truncate l k ++ dropped) l.
+Proof. intros l k H. rewrite tie_nondominated_truncate. exact (c04_truncate_sub l k H). Qed.
+
+Theorem tie_c04_generated_truncate_rank_mono : forall l k x y, NoDup (map asid l) ->
+  In x (gen_nd_truncate l k) -> In y l -> ~ In (asid y) (map asid (gen_nd_truncate l k)) ->
+  (a_rank x <= a_rank y)%nat /\ (a_rank x = a_rank y -> xltb (a_crowd x) (a_crowd y) = false).
+Proof. intros l k x y H. rewrite tie_nondominated_truncate. exact (c04_truncate_rank_mono l k x y H). Qed.
+
+Print Assumptions tie_c04_generated_truncate_length.
+Print Assumptions tie_c04_generated_truncate_sub.
+Print Assumptions tie_c04_generated_truncate_rank_mono.
